@@ -123,5 +123,5 @@ def _pure(pid, tier):
     return pure.check(pid, tier)
 
 
-for _p in ("C05", "C06", "C07", "C13", "C14"):
+for _p in ("C03", "C05", "C06", "C07", "C13", "C14"):
     CHECKS[_p] = _pure
